@@ -267,7 +267,8 @@ class Range(Kind):
         a, w = pool.any()
         lo = rng.randrange(w)
         hi = rng.randint(lo, w - 1)
-        return {'high': hi, 'low': lo}, [a], [hi - lo + 1]
+        # the extracted range is right-aligned in the result, which may be wider than the range
+        return {'high': hi, 'low': lo}, [a], [hi - lo + 1 + (rng.choice([1, 2, 5]) if rng.random() < 0.15 else 0)]
 
     def build(self, parent, nm, ins, outs, p):
         return py4hw.Range(parent, nm, ins[0], p['high'], p['low'], outs[0])
@@ -1759,3 +1760,41 @@ _fpkind('FPMult_SP', 2, [32], lambda p, n, i, o: py4hw.FPMult_SP(p, n, i[0], i[1
 _fpkind('FPComparator_SP', 2, [1, 1, 1], lambda p, n, i, o: py4hw.FPComparator_SP(p, n, i[0], i[1], o[0], o[1], o[2]))
 _fpkind('InttoFP_SP', 1, [32, 1], lambda p, n, i, o: py4hw.InttoFP_SP(p, n, i[0], o[0], o[1]))
 _fpkind('FPtoInt_SP', 1, [32, 1, 1, 1], lambda p, n, i, o: py4hw.FPtoInt_SP(p, n, i[0], o[0], o[1], o[2], o[3]))
+
+
+class _DefaultOverrideBlock(py4hw.Logic):
+    """a user-written clocked block in default-then-override style: the output is prepared twice in one edge
+    (py4hw prints a warning and keeps the last value)"""
+
+    def __init__(self, parent, name, a, r, k):
+        super().__init__(parent, name)
+        self.a = self.addIn('a', a)
+        self.r = self.addOut('r', r)
+        self.k = k
+
+    def clock(self):
+        self.r.prepare(0)
+        self.r.prepare(self.a.get() - self.k)
+
+
+@register
+class DefaultOverride(SeqKind):
+    name = 'DefaultOverride'
+    tags = ('seq', 'extra', 'simonly', 'userblock')
+    weight = 0.6
+
+    def plan(self, rng, pool):
+        a, w = pool.any(1, 40)
+        return {'k': rng.choice([0, 1, 3, 1 << w, (1 << (w + 3)) + 5])}, [a], [rng.choice([w, max(1, w - 2), w + 1])]
+
+    def build(self, parent, nm, ins, outs, p):
+        return _DefaultOverrideBlock(parent, nm, ins[0], outs[0], p['k'])
+
+    def init(self, p, iw, ow):
+        return 0
+
+    def outs(self, p, st, iv, iw, ow):
+        return [st]
+
+    def nxt(self, p, st, iv, iw, ow):
+        return M(iv[0] - p['k'], ow[0])
